@@ -199,8 +199,8 @@ def run(F, rep):
                     src for src in _srcs(f, c)])]
                 rep.check(bool(scr), 'C16.U1', '%s|%s(%s)|screened' % (f.short, conv, arg), f.where(m),
                           '%s(%s) in %s is not on the accepting branch of %s' % (conv, arg, f.short, recog), 'on the accepting branch of %s' % recog)
-    if n_u < 3:
-        raise AnalysisBroken('C16.U1: %d parser conversion sites, 3 confirmed' % n_u)
+    if n_u < 2:
+        raise AnalysisBroken('C16.U1: %d parser conversion sites, 3 confirmed on the pinned tree (exponent, multiplier, reset order; the first two may share one helper)' % n_u)
     rep.rule('C16.U2', 'validator: <cn> text and variable initial values are screened with isCellMLReal; unit prefixes with isCellMLInteger/isStandardPrefixName')
     val = [f for f in F.funcs.values() if f.file.endswith('validator.cpp')]
     uses = {}
@@ -227,9 +227,10 @@ def run(F, rep):
     rep.check(len(rb) == 1 and rb[0].startswith('canConvertToBasicDouble('), 'C16.U2', 'XmlNode::isBasicReal|recogniser', xb.where(), 'isBasicReal returns %s' % rb, 'canConvertToBasicDouble')
     rep.check(len(ri) == 1 and ri[0].startswith('convertToInt('), 'C16.U2', 'XmlNode::isInteger|recogniser', xi.where(), 'isInteger returns %s' % ri, 'convertToInt')
     cc = F.fn1('libcellml::canConvertToBasicDouble')
-    g1 = [m for m in cc.walk() if is_call(m, 'stringToDouble')]
-    okc = g1 and any(t and is_call(c, 'isCellMLBasicReal') for c, t in (ff(cc).conds_at(g1[0]) or []))
-    rep.check(bool(okc), 'C16.U2', 'canConvertToBasicDouble|screened', cc.where(), 'stringToDouble is not behind isCellMLBasicReal', 'isCellMLBasicReal first')
+    # the conversion itself (std::stod, here or in a helper it calls) happens behind isCellMLBasicReal; with no conversion at all the recogniser alone decides
+    g1 = [m for m in cc.walk() if m.get('k') == 'Call' and not m.get('opc') and ((m.get('callee') or '').startswith('std::sto') or any((F.funcs[k_].name if k_ in F.funcs else '').startswith(('stringTo', 'convertTo')) for k_ in F.callee_keys(m)))]
+    okc = all(any(t and is_call(c, 'isCellMLBasicReal') for c, t in (ff(cc).conds_at(m_) or [])) for m_ in g1) and (g1 or any(is_call(x, 'isCellMLBasicReal') for x in cc.walk()))
+    rep.check(bool(okc), 'C16.U2', 'canConvertToBasicDouble|screened', cc.where(), 'the conversion in canConvertToBasicDouble is not behind isCellMLBasicReal', 'isCellMLBasicReal first')
 
     # ---------------------------------------------------------------- P: output precision
     rep.rule('C16.P1', 'convertToString(double) prints with setprecision(std::numeric_limits<double>::digits10 or more) on the full-precision path, which is the default and the one used by the printer')
